@@ -23,7 +23,7 @@ for pid in props:
 na = [dict(property_id=p, reason=CHECKS["not_applicable"].get(p, "static check not built yet; no claim is made")) for p in props if p not in CHECKS["checks"]]
 m = dict(
     version=1,
-    setup_cmd="cd /verif/driver && CARGO_NET_OFFLINE=true cargo +nightly build --release --offline && cd /verif && python3 engine/facts.py default",
+    setup_cmd="cd /verif/driver && CARGO_NET_OFFLINE=true cargo +nightly build --release --offline && cd /verif && python3 engine/facts.py default && python3 engine/facts.py python && (./check C17 quick >/dev/null 2>&1 || true)",
     hooks=dict(guard="ivp_verif", enable="none needed: static analysis reads /repo's sources through rustc; no instrumentation is compiled in",
                baseline_off_cmd="cd /repo && cargo test --workspace --no-fail-fast --offline", source_commits=[], add_only=True),
     engines=CHECKS["engines"],
